@@ -70,6 +70,14 @@ CHECKS = {
              "compared structurally and by exact evaluation. Found the missing parentheses of a scaled nway step on the pinned commit (fixed).",
         design="4/C09",
         note="Trusted base: vf/tree2ast.py (node-by-node conversion), Python's ast module, sympy for the reference value, Hypothesis."),
+    "C10": dict(
+        technique="property-based testing (Hypothesis): generated specifications x generated topological tie-breaks (Kahn's algorithm driven by drawn choices, injected for teaal.ir.flow_graph only); validity predicate over FlowGraph.get_graph()/get_sorted()",
+        text="Generated-input search over specifications of every family and over linear extensions of the dependence graph that no hash seed "
+             "happens to produce: the hoisting pass is run on drawn tie-breaks and on networkx's own order, and the resulting statement "
+             "sequence must be a permutation of the graph's nodes in which every edge goes forward, loops nest as brackets with the "
+             "update innermost, and nothing sits above a loop it transitively depends on (shipped accelerator specs also with metrics nodes).",
+        design="4/C10",
+        note="Trusted base: the graph returned by FlowGraph.get_graph() as the dependence relation, networkx.descendants, Hypothesis."),
 }
 
 NOT_APPLICABLE = {}
